@@ -45,7 +45,12 @@ NameCases(sets, spells, exts) ==
                                               \cup (IF sp.cfg = "d/sub" THEN {} ELSE {}))],
     ops |-> SetToSeq({[op |-> "String", name |-> NameOf(e, x), data |-> <<>>,
                        expect |-> IF IsTemplate(e) THEN [kind |-> "out", out |-> "x" \o e.stem] ELSE [kind |-> "err", why |-> "not a template"]] : e \in es}
-                     \cup {[op |-> "String", name |-> "ghost", data |-> <<>>, expect |-> [kind |-> "err", why |-> "unknown name"]]}),
+                     \cup {[op |-> "String", name |-> "ghost", data |-> <<>>, expect |-> [kind |-> "err", why |-> "unknown name"]]}
+                     \* a template has ONE name - its relative path without the extension: with the extension, or with a slash in
+                     \* front, it is an unknown name
+                     \cup {[op |-> "String", name |-> NameOf(e, x) \o x, data |-> <<>>, expect |-> [kind |-> "err", why |-> "unknown name"]] :
+                             e \in {f \in es : IsTemplate(f) /\ \A g \in es : IsTemplate(g) => NameOf(g, x) # NameOf(f, x) \o x}}
+                     \cup {[op |-> "String", name |-> "/" \o NameOf(e, x), data |-> <<>>, expect |-> [kind |-> "err", why |-> "unknown name"]] : e \in {f \in es : IsTemplate(f)}}),
     tags |-> <<"c18names", sp.cfg, x>>] : es \in sets, sp \in spells, x \in exts}
 Singles == {{e} : e \in Entries} \cup {Entries} \cup {{e \in Entries : IsTemplate(e)}} \cup {{e \in Entries : ~IsTemplate(e)}}
 Pairs == {{e, f} : e \in Entries, f \in Entries}
@@ -118,6 +123,10 @@ BaseCase == {[files |-> SetToSeq({FileRec(m, Cat(GoodFiles[m]), "") : m \in DOMA
                         [op |-> "EvalFile", name |-> "/t/illegal.txt", data |-> <<>>, expect |-> [kind |-> "any"]],
                         [op |-> "EvalFile", name |-> "/t/undef.txt", data |-> <<>>, expect |-> [kind |-> "any"]]>> \o
                       <<[op |-> "String", name |-> "layouts/main", data |-> <<>>, expect |-> [kind |-> "err", why |-> "layouts are not renderable"]],
+                        [op |-> "String", name |-> "/about", data |-> <<>>, expect |-> [kind |-> "err", why |-> "unknown name"]],
+                        [op |-> "String", name |-> "about.tw", data |-> <<>>, expect |-> [kind |-> "err", why |-> "unknown name"]],
+                        [op |-> "String", name |-> "./about", data |-> <<>>, expect |-> [kind |-> "err", why |-> "unknown name"]],
+                        [op |-> "String", name |-> "components/../about", data |-> <<>>, expect |-> [kind |-> "err", why |-> "unknown name"]],
                         [op |-> "String", name |-> "layouts/inif", data |-> <<>>, expect |-> [kind |-> "err", why |-> "layouts are not renderable"]],
                         [op |-> "String", name |-> "layouts/ineach", data |-> <<>>, expect |-> [kind |-> "err", why |-> "layouts are not renderable"]],
                         [op |-> "String", name |-> "layouts/inelse", data |-> <<>>, expect |-> [kind |-> "err", why |-> "layouts are not renderable"]],
